@@ -367,6 +367,7 @@ func (cr *c06Runner) query(q c06Query) string {
 	}
 	if rq.Scope != nil {
 		st.l("q:with-scope")
+		st.l("q:scope-direction:" + rq.Scope.Dir)
 	}
 	if q.Text != "" {
 		st.l("q:with-text:" + q.TextVia)
@@ -732,6 +733,12 @@ func TestVerif_C06_history(t *testing.T) {
 		col.InFlight(c)
 		msg := c06Run(c, verifkit.CaseSeed(h), st)
 		col.Landed()
+		for _, op := range c.Ops {
+			if op.Why == "c06-unlink-again" {
+				st.l("history:edge-closed-reopened-closed-again")
+				break
+			}
+		}
 		col.CaseH(h, c, st.NonTrivial, c06Labels(st)...)
 		for k, n := range st.L {
 			col.Label(k, n)
